@@ -113,8 +113,13 @@ def stepReq (layerB : Bool) (st : St) (c : Case) : String × String :=
       let sub : Bytes := match readUTF data with | some (s, _) => s | none => []
       let fwd := sub == sForward
       let online := st.players
+      -- the registered servers' player lists (may contain players whose current server is another one)
+      let listed : Bytes → List Player := fun srv =>
+        match st.servers.find? (·.name == srv) with
+        | some sv => sv.players.filterMap fun n => online.find? (·.name == n)
+        | none => []
       let rA := fun (h : Bool) (es : List Effect) (p : Bool) =>
-        if layerB then showB online fwd h (es.flatMap (adapt ⟨true⟩ online firstPick)) p else showA h es p
+        if layerB then showB online fwd h (es.flatMap (adapt repairedA online listed firstPick)) p else showA h es p
       let model := rA out.handled out.effects out.panicked
       let tag := subName sub
       let hyps := namesOk st && (dj == dd)
@@ -124,7 +129,7 @@ def stepReq (layerB : Bool) (st : St) (c : Case) : String × String :=
           if !isBungee chan then (if c.impl = "h=0 -" then "ok" else "viol:non-bungee-channel-processed") else "-"
         | some (.ok effs) =>
           if !hyps then "-" else
-          let want := if layerB then showB online fwd true (effs.flatMap (specAdapt online firstPick)) false
+          let want := if layerB then showB online fwd true (effs.flatMap (specAdapt online listed firstPick)) false
                       else showA true effs false
           if c.impl = want then "ok"
           else if c.impl.endsWith "panic" then "viol:panic-" ++ tag
